@@ -315,7 +315,7 @@ structure ISt where
   started : Bool := false
   openDesc : Nat := 0
   iters : List EIter := []      -- top of the stack at the head
-  deferred : List Entry := []   -- top of the stack at the head
+  deferred : List (Nat × Entry) := []   -- top of the stack at the head; with the depth it was found at
 
 /-- `EntriesIter::process`; `σ` is what the `pre_op` closure mutates -/
 def process {σ} (snap : Snap) (o : Opts) (preOp : Entry → σ → Outcome Unit × σ)
@@ -345,8 +345,14 @@ def process {σ} (snap : Snap) (o : Opts) (preOp : Entry → σ → Outcome Unit
   | (none, st', w') =>
     if depth < o.minDepth then (none, st', w')
     else if (o.files ∧ !e.file) ∨ (!o.files ∧ o.dirs ∧ !e.dir) then (none, st', w')
-    else if e.dir ∧ o.contentsFirst then (none, { st' with deferred := e :: st'.deferred }, w')
+    else if e.dir ∧ o.contentsFirst then (none, { st' with deferred := (depth, e) :: st'.deferred }, w')
     else (some (.ok e), st', w')
+
+/-- `self.deferred.last().map_or(false, |x| x.0 >= self.iters.len())`: the directory on top of the
+    deferred stack was found at a depth that the iterator stack has come back to -/
+def deferredReady (itersLen : Nat) : List (Nat × Entry) → Bool
+  | (d, _) :: _ => decide (itersLen ≤ d)
+  | [] => false
 
 /-- the `while !self.iters.is_empty()` loop of `EntriesIter::next` -/
 def nextLoop {σ} (snap : Snap) (o : Opts) (preOp : Entry → σ → Outcome Unit × σ) :
@@ -355,15 +361,17 @@ def nextLoop {σ} (snap : Snap) (o : Opts) (preOp : Entry → σ → Outcome Uni
   | f + 1, st, w =>
     match st.iters with
     | [] =>
-      if o.contentsFirst ∧ st.iters.length < st.deferred.length then
+      -- after the `while` loop: every remaining deferred directory is released, one per call
+      if o.contentsFirst then
         match st.deferred with
-        | d :: ds => (some (.ok d), { st with deferred := ds }, w)
+        | d :: ds => (some (.ok d.2), { st with deferred := ds }, w)
         | [] => (none, st, w)
       else (none, st, w)
     | top :: below =>
-      if o.contentsFirst ∧ st.iters.length < st.deferred.length then
+      -- `self.deferred.last().map_or(false, |x| x.0 >= self.iters.len())`
+      if o.contentsFirst ∧ deferredReady st.iters.length st.deferred then
         match st.deferred with
-        | d :: ds => (some (.ok d), { st with deferred := ds }, w)
+        | d :: ds => (some (.ok d.2), { st with deferred := ds }, w)
         | [] => (none, st, w)
       else match top.items with
         | x :: xs =>
